@@ -49,14 +49,14 @@ Lemma readchunk_sound s s' d : ICP s -> k_readchunk s = (s', Done (RChunk d true
 Proof.
   intros H. pose proof (proj1 H) as HI. unfold k_readchunk. destruct (exc s); [intros E; inversion E|].
   destruct (splits s) as [l|] eqn:El.
-  2: { destruct (buf s) as [|f r]; [destruct (eof s); [|unfold block]; intros E; inversion E|].
+  2: { destruct (buf s) as [|f r]; [destruct (eof s); [|unfold block; destruct (wait_exc _)]; intros E; inversion E|].
        destruct (rnc (-1) f r s); intros E; inversion E. }
   destruct (pop_splits_suffix (cursor s) l) as [l1 Hl].
   destruct (pop_splits (cursor s) l) as [found l'] eqn:Ep. cbn [snd] in Hl.
   assert (H0 : ICP (set_splits s (Some l'))).
   { destruct H as [HI' Hw]. split; [|exact Hw]. apply (Inv_pop s l1 l' HI' Hw). congruence. }
   destruct found as [p|].
-  2: { destruct (buf (set_splits s (Some l'))) as [|f r]; [destruct (eof _); [|unfold block]; intros E; inversion E|].
+  2: { destruct (buf (set_splits s (Some l'))) as [|f r]; [destruct (eof _); [|unfold block; destruct (wait_exc _)]; intros E; inversion E|].
        destruct (rnc (-1) f r _); intros E; inversion E. }
   destruct (pop_splits_In _ _ _ _ Ep) as [Hin Hpc].
   pose proof (I_end s HI) as He. rewrite El in He. destruct He as [pre He].
